@@ -5,8 +5,8 @@ Model of the path pipeline of the static file handler, `pkg/app/fs.go`:
 * `stripLeadingSlashes`, `stripTrailingSlashes`,
 * the two stock `PathRewriteFunc`s `NewPathSlashesStripper(n)` and `NewVHostPathRewriter(n)` (the latter
   rewrites the request URI through `URI.SetPathBytes` as a side effect, so the URI is part of the result),
-* the head of `fsHandler.handleRequest`: rewrite → `stripTrailingSlashes` → NUL test (400) → `/../` guard
-  (500, only with a rewriter) → the string `root + path` that is handed to `os.Open`,
+* the head of `fsHandler.handleRequest`: rewrite → `stripTrailingSlashes` → NUL test (400) → guard against
+  `/../`, a trailing `/..` and a missing leading slash (500, only with a rewriter) → the string `root + path` that is handed to `os.Open`,
 * `openFSFile` / `openIndexFile` over an abstract directory tree: the operating system's path resolution is
   modelled component by component (`walk`: empty and `.` components stay, `..` goes to the parent, a
   component below a non-directory fails), so a path that still contains `..` *does* leave the root in the
@@ -64,15 +64,20 @@ def rewrite (rw : Rewriter) (u : URI) : Option (Bytes × URI) :=
 /-- what `handleRequest` does before it touches the file system -/
 inductive Decision where
   | badRequest                 -- NUL byte in the path: 400
-  | guard                      -- `/../` in a rewritten path: 500
+  | guard                      -- `/../` in, `/..` at the end of, or no leading slash on a rewritten path: 500
   | openPath (p : Bytes)       -- `os.Open(root + p)`
 deriving Repr, DecidableEq
+
+/-- the tests on a rewritten path (trailing slashes already stripped): `/../` inside, `/..` at the end, or a
+non-empty path that does not start with a slash (it is appended to the root as it is) -/
+def refused (p : Bytes) : Bool :=
+  containsSub Hertz.Gen.Str.strSlashDotDotSlash p || [47, 46, 46].isSuffixOf p || (!p.isEmpty && p.head? != some 47)
 
 def decision (rw : Rewriter) (u : URI) : Option (Decision × URI) :=
   (rewrite rw u).map (fun (p, u') =>
     let p := stripTrailingSlashes p
     if p.contains 0 then (.badRequest, u')
-    else if rw != .none && containsSub Hertz.Gen.Str.strSlashDotDotSlash p then (.guard, u')
+    else if rw != .none && refused p then (.guard, u')
     else (.openPath p, u'))
 
 /-! ### the file system -/
